@@ -258,8 +258,8 @@ func runConcSim(env *RunEnv) {
 				}
 				k := t.Choose("cc-which", len(subs))
 				s := subs[k]
-				if getSub(s) == nil {
-					continue
+				if getSub(s) == nil || s.closed {
+					continue // using a subscription after closing it is the caller's mistake
 				}
 				slow := t.Choose("cc-consume-slow", 3) // takes n values, then is busy until released
 				busy := make(chan struct{})
